@@ -337,6 +337,7 @@ Definition p_holds (rq : req) (partial : bool) (pop_size : nat) (o : pobs) : boo
       forallb (fun b => b) (p_accepted o) &&
       (length (p_equal_pairs o) =? length pop * (length pop - 1) / 2) &&
       forallb negb (p_equal_pairs o) &&
+      forallb negb (pairs_eq pop) &&      (* structural equality, independent of the implementation's == *)
       forallb (fun d => d <=? depth_bound rq None) (p_depths o) && (length (p_depths o) =? length pop) &&
       forallb (fun t => (tdepth t <=? depth_bound rq None) &&
                         (if partial then arity_upper_ok rq t else arity_ok rq t)) pop
@@ -377,8 +378,12 @@ Definition s_agree (pop_size : nat) (o : sobs) : bool :=
   | _ => false
   end.
 
-(* the property on the observed population, with the implementation's own == answers *)
+(* the property on the observed population.  "No two equal graphs" is judged twice: with the
+   implementation's own == answers, and - independently of that operator - with graph equality as
+   it is defined on the unchanged tree (C13): equal sets of sink descriptive ids, computed here
+   from the observed structure (forest_eqb).  So a changed __eq__ cannot hide a duplicate. *)
 Definition s_holds (pop_size : nat) (o : sobs) : bool :=
   let n := length (s_result o) in
   (n <=? pop_size) && (length (s_accepted o) =? n) && forallb (fun b => b) (s_accepted o) &&
-  (length (s_equal_pairs o) =? n * (n - 1) / 2) && forallb negb (s_equal_pairs o).
+  (length (s_equal_pairs o) =? n * (n - 1) / 2) && forallb negb (s_equal_pairs o) &&
+  forallb negb (fpairs_eq (s_result o)).
